@@ -51,6 +51,18 @@ type GenCfg struct {
 	ECompact   bool     // occasionally forward a Compact to the engine (observing nil / error)
 }
 
+// lazyDepths returns the depths of the "z" (LazyFlushable) layers of a header.
+func lazyDepths(header []string) []int {
+	var out []int
+	n := len(header)
+	for i, l := range header {
+		if i > 0 && l == "z" {
+			out = append(out, n-1-i)
+		}
+	}
+	return out
+}
+
 // flushDepths returns the depths (0 = top) of the "f" layers of a header.
 func flushDepths(header []string) []int {
 	var out []int
@@ -108,11 +120,24 @@ func Gen(r *rand.Rand, c GenCfg) []string {
 	}
 	handle := func() string { return c.Handles[r.Intn(len(c.Handles))] }
 	fds := flushDepths(c.Header)
+	lds := lazyDepths(c.Header)
+	if len(lds) > 0 {
+		// the produced store is usually NOT empty (a database re-opened after a restart): populate
+		// the level below the lazy layer before anything else, then InitUnderlyingDb at an arbitrary point
+		below := strconv.Itoa(lds[0] + 1)
+		for j := r.Intn(5); j > 0; j-- {
+			emit("put", below, key(), val())
+		}
+	}
 	type bstate struct{ bound, written bool }
 	bs := [2]bstate{}
 	nsnap := 0
 	nlive := 0
 	for i := 0; i < c.NOps; i++ {
+		if len(lds) > 0 && r.Intn(12) == 0 {
+			emit("init", strconv.Itoa(lds[r.Intn(len(lds))]))
+			continue
+		}
 		if c.Reopen && nsnap == 0 && nlive == 0 && r.Intn(40) == 0 {
 			emit("reopen")
 			continue
